@@ -174,6 +174,9 @@ impl Parser for Markdown {
         // NOTE: the range spits out __byte__ indices, not char indices.
         // This is why we keep track above.
         for (event, range) in md_parser.into_offset_iter() {
+            // An event that starts behind the cursor repeats source text (see `covered_until`).
+            let behind_cursor = range.start < traversed_bytes;
+
             if range.start > traversed_bytes {
                 traversed_chars += source_str[traversed_bytes..range.start].chars().count();
                 traversed_bytes = range.start;
@@ -183,7 +186,7 @@ impl Parser for Markdown {
                 covered_until = covered_until.max(last.span.end);
             }
 
-            if traversed_chars < covered_until
+            if (behind_cursor || traversed_chars < covered_until)
                 && matches!(
                     event,
                     pulldown_cmark::Event::SoftBreak
